@@ -132,7 +132,7 @@ func exerciseNode(st *Store, n datamodel.Node, xs *exerciseStats, keysToTry []st
 }
 
 // c13Run stores the hostile DAG and exercises it through Reify and both registered reifiers.
-func c13Run(m *mnode) (xs exerciseStats, panicked any, stack string, root cid.Cid, err error) {
+func c13Run(m *mnode, extraKeys ...string) (xs exerciseStats, panicked any, stack string, root cid.Cid, err error) {
 	st := NewStore()
 	ls := st.LinkSystem()
 	root, err = m.store(st, ls)
@@ -143,7 +143,7 @@ func c13Run(m *mnode) (xs exerciseStats, panicked any, stack string, root cid.Ci
 	xs.linkBudget = 2*links + 10
 	xs.byteBudget = payload + 1<<20
 	budget := 200 * nodes
-	keysToTry := []string{"", "a", "0a", "x", "abc", "00", "inner", "Links"}
+	keysToTry := append([]string{"", "a", "0a", "x", "abc", "00", "inner", "Links"}, extraKeys...)
 	for _, reifier := range []string{"Reify", "unixfs", "unixfs-preload"} {
 		st.ResetLogs()
 		st.LoadBudget = budget
@@ -190,9 +190,20 @@ func TestC13_P_HostileDAGs(t *testing.T) {
 	ev := newEvid(t, c13DagRule)
 	rapid.Check(t, func(t *rapid.T) {
 		var m *mnode
-		gen := rapid.SampledFrom([]string{"scratch", "mutated", "mutated"}).Draw(t, "gen")
+		gen := rapid.SampledFrom([]string{"scratch", "mutated", "mutated", "mutated", "deep-chain"}).Draw(t, "gen")
 		var muts []string
-		if gen == "scratch" {
+		var extraKeys []string
+		if gen == "deep-chain" {
+			var key string
+			m, key = genDeepChain(t)
+			extraKeys = []string{key}
+			if rapid.Bool().Draw(t, "mutateChain") {
+				all := m.all()
+				if k := mutate(t, all[rapid.IntRange(0, len(all)-1).Draw(t, "target")]); k != "" {
+					muts = append(muts, k)
+				}
+			}
+		} else if gen == "scratch" {
 			m = genHostileScratch(t, 3)
 			if m.IsRaw {
 				m = &mnode{Links: []mlink{{Name: strp("a"), Child: m}}, HasData: true}
@@ -251,7 +262,7 @@ func TestC13_P_HostileDAGs(t *testing.T) {
 			ev.Case("too-large", false, "skipped-too-large")
 			return
 		}
-		xs, p, stack, root, err := c13Run(m)
+		xs, p, stack, root, err := c13Run(m, extraKeys...)
 		if err != nil {
 			// the codec refused to encode the hostile node (e.g. negative Tsize): not a case
 			ev.Case("unencodable", false, "unencodable")
@@ -346,6 +357,37 @@ func TestC13_P_DecoderBytes(t *testing.T) {
 	})
 }
 
+// genDeepChain builds a hostile but structurally consistent HAMT: a single chain of nested shards along the hash path of
+// one crafted name, as deep as or deeper than the 64-bit digest can address at that fanout, ending in a value link.
+func genDeepChain(t *rapid.T) (*mnode, string) {
+	lg := rapid.IntRange(3, 10).Draw(t, "chainfanlg")
+	fan := 1 << uint(lg)
+	maxLevels := 64 / lg
+	depth := maxLevels + rapid.IntRange(-2, 3).Draw(t, "chainextra")
+	key := craftName(rapid.Uint64().Draw(t, "chainhash"), 42)
+	pad := padWidth(fan)
+	var node *mnode
+	for level := depth - 1; level >= 0; level-- {
+		idx, ok := hashBitsRef(key, level*lg, lg)
+		if !ok {
+			idx = rapid.IntRange(0, fan-1).Draw(t, "overflowidx")
+		}
+		bf := make([]byte, fan/8)
+		bf[len(bf)-1-idx/8] |= 1 << uint(idx%8)
+		for len(bf) > 1 && bf[0] == 0 {
+			bf = bf[1:]
+		}
+		n := &mnode{HasData: true, UFS: hamtFields(uint64(fan), bf)}
+		if node == nil {
+			n.Links = []mlink{{Name: strp(fmt.Sprintf("%0*X%s", pad, idx, key)), Tsize: i64p(1), Child: &mnode{IsRaw: true, Raw: []byte("v")}}}
+		} else {
+			n.Links = []mlink{{Name: strp(fmt.Sprintf("%0*X", pad, idx)), Tsize: i64p(1), Child: node}}
+		}
+		node = n
+	}
+	return node, key
+}
+
 func hamtFields(fan uint64, bf []byte) *ufsFields {
 	return &ufsFields{Type: 5, HasData: true, Data: bf, HashType: u64p(0x22), Fanout: u64p(fan)}
 }
@@ -383,4 +425,40 @@ func TestC13_R_F6_FanoutMismatch(t *testing.T) {
 func TestC13_R_NegativeSeekNoPanic(t *testing.T) {
 	c13MustSurvive(t, "wrapped single-node file", &mnode{HasData: true, UFS: &ufsFields{Type: 2, HasData: true, Data: []byte("abc")}})
 	c13MustSurvive(t, "file over one raw leaf", &mnode{HasData: true, UFS: &ufsFields{Type: 2, FileSize: u64p(3), BlockSizes: []uint64{3}}, Links: []mlink{{Tsize: i64p(3), Child: &mnode{IsRaw: true, Raw: []byte("abc")}}}})
+}
+
+// A chain of shards deeper than the digest can address (22 levels at fanout 8 = 66 bits) must end in an error.
+func TestC13_R_DeeperThanHash(t *testing.T) {
+	for _, lg := range []int{3, 4, 5, 6, 7, 8, 9, 10} {
+		fan := 1 << uint(lg)
+		key := craftName(0x0123456789abcdef, uint64(lg))
+		pad := padWidth(fan)
+		depth := 64/lg + 2
+		var node *mnode
+		for level := depth - 1; level >= 0; level-- {
+			idx, ok := hashBitsRef(key, level*lg, lg)
+			if !ok {
+				idx = 1
+			}
+			bf := make([]byte, fan/8)
+			bf[len(bf)-1-idx/8] |= 1 << uint(idx%8)
+			n := &mnode{HasData: true, UFS: hamtFields(uint64(fan), bf)}
+			if node == nil {
+				n.Links = []mlink{{Name: strp(fmt.Sprintf("%0*X%s", pad, idx, key)), Child: &mnode{IsRaw: true, Raw: []byte("v")}}}
+			} else {
+				n.Links = []mlink{{Name: strp(fmt.Sprintf("%0*X", pad, idx)), Child: node}}
+			}
+			node = n
+		}
+		xs, p, stack, root, err := c13Run(node, key)
+		if err != nil {
+			t.Fatal(err)
+		}
+		if p != nil {
+			t.Fatalf("C13 deeper-than-hash fanout %d: PANIC on %s: %v\n%s", fan, root, p, stack)
+		}
+		if xs.violation != "" {
+			t.Fatalf("C13 deeper-than-hash fanout %d: %s", fan, xs.violation)
+		}
+	}
 }
